@@ -387,10 +387,128 @@ def ghost(r, F):
               "GhostQueue::contains does not test membership of the given hash", ln=ct.lo)
 
 
+ALGOS = {"fifo::Fifo": {"queue"}, "sieve::Sieve": {"queue"}, "s3fifo::S3Fifo": {"main_queue", "small_queue"}, "lfu::Lfu": {"window", "probation", "protected"},
+         "lru::Lru": {"pin_list", "high_priority_list", "list"}}
+
+
+def bookkeeping(r, F):
+    """the per-record and per-queue bookkeeping every step of the algorithms relies on: the in-eviction flag follows list membership, `remove` unlinks from the
+    queue the record is tagged with, lookups feed the frequency / visited state, resizes reach every derived capacity"""
+    SETF = r"Record::<E>::set_in_eviction$"
+    for short, lists in sorted(ALGOS.items()):
+        A = EV + "::" + short
+        name = short.split("::")[1]
+        push, pop, rem = F.method(A, "push", "Eviction"), F.method(A, "pop", "Eviction"), F.method(A, "remove", "Eviction")
+        # --- flag: true on push (the pushed record), false on every record handed out by pop / unlinked by remove
+        st = [b for b in push.calls_to(SETF) if b.term.args[1].const_val() == 1 and 2 in backslice(push, b.term.args[0], "prov").args]
+        r.require(len(st) == 1 and push.must_pass(0, [st[0].idx]), push, "%s push: in-eviction := true" % name, "the pushed record is flagged on every path",
+                  "%s::push does not flag the record as in-eviction on every path: RawCacheShard::remove / replace test that flag to decide whether to unlink the record, so it stays linked "
+                  "after it left the cache and is later chosen as a victim" % name, ln=push.lo)
+        sf = [b for b in rem.calls_to(SETF) if b.term.args[1].const_val() == 0 and 2 in backslice(rem, b.term.args[0], "prov").args]
+        r.require(bool(sf) and rem.must_pass(0, [b.idx for b in sf]), rem, "%s remove: in-eviction := false" % name, "the unlinked record is unflagged on every path",
+                  "%s::remove does not clear the in-eviction flag on every path" % name, ln=rem.lo)
+        thr = [b.idx for b in pop.calls_to(SETF) if b.term.args[1].const_val() == 0]
+        for b in pop.calls_to(r"Option::<T>::inspect$"):
+            if any(g.calls_to(SETF) and all(c.term.args[1].const_val() == 0 for c in g.calls_to(SETF)) and g.must_pass(0, [c.idx for c in g.calls_to(SETF)]) for g in F.descendants(pop)):
+                thr.append(b.idx)
+        none = [b.idx for b in pop.calls_to(r"FromResidual<.*>>::from_residual$|FromResidual::from_residual$")] + \
+               [b.idx for b in pop.blocks if not b.cleanup for s_ in b.stmts if s_.k == "assign" and s_.place.local == 0 and s_.rv.k == "agg" and s_.rv.j.get("variant") == "None"]
+        r.require(bool(thr) and pop.must_pass(0, thr + none), pop, "%s pop: in-eviction := false" % name, "every record handed out as a victim is unflagged (paths returning None excepted)",
+                  "%s::pop can return a victim that is still flagged in-eviction" % name, ln=pop.lo)
+        # --- remove unlinks from the record's own queue
+        e = ends(F, rem, A)
+        got = {f for f, ms in e.items() if "remove_from_ptr" in ms}
+        r.require(got == lists, rem, "%s remove: unlink in place" % name, "remove_from_ptr on %s" % sorted(got), "%s::remove must unlink the record from the queue that holds it (%s); it unlinks from %s — "
+                  "a removed record that stays linked is evicted again later" % (name, sorted(lists), sorted(got)), ln=rem.lo)
+        ops = list_ops(F, rem, A)
+        for (sb, pl, tm, other) in tables.discr_switches(rem):
+            tagmap = {"Main": "main_queue", "Small": "small_queue", "Window": "window", "Probation": "probation", "Protected": "protected"}
+            vs = [v for v in tm if v in tagmap and tagmap[v] in lists]
+            if len(vs) < 2:
+                continue
+            for v in vs:
+                reach = rem.reachable([tm[v]], avoid=[sb.idx] + [tm[x] for x in tm if x != v and tm[x] != tm[v]])
+                here = {f for (f, m, g, b) in ops if g is rem and b in reach and m == "remove_from_ptr"}
+                r.require(here == {tagmap[v]}, rem, "%s remove: tag %s -> %s" % (name, v, tagmap[v]), "the arm of tag %s unlinks from %s" % (v, tagmap[v]),
+                          "%s::remove unlinks a record tagged %s from %s: remove_from_ptr on a list that does not hold the record corrupts both lists" % (name, v, sorted(here)), ln=rem.lo)
+    # --- S3-FIFO: lookups raise the frequency; accessors touch the frequency cell; resize reaches the ghost queue and the small share
+    S3, ST = EV + "::s3fifo::S3Fifo", EV + "::s3fifo::S3FifoState"
+    acq = F.method(S3, "acquire", "Eviction")
+    cl = [g for g in F.descendants(acq) if g.calls_to(r"S3FifoState::inc_frequency$")]
+    r.require(len(cl) == 1 and cl[0].must_pass(0, [b.idx for b in cl[0].calls_to(r"S3FifoState::inc_frequency$")]), acq, "S3-FIFO acquire: inc_frequency on every lookup", "the access operator raises the record's frequency unconditionally",
+              "S3-FIFO lookups do not raise the entry's frequency: nothing is ever promoted from the small queue or re-inserted in main", ln=acq.lo)
+    for meth, pat, argp in (("frequency", r"::load$", None), ("set_frequency", r"::store$", 2), ("inc_frequency", r"::fetch_update", None), ("dec_frequency", r"::fetch_update", None)):
+        f = F.method(ST, meth)
+        cs = [b for b in f.calls_to(pat) if backslice(f, b.term.args[0], "prov").has_field("frequency", ST)]
+        ok = len(cs) == 1 and f.must_pass(0, [cs[0].idx]) and (argp is None or argp in backslice(f, cs[0].term.args[1], "prov").args)
+        r.require(ok, f, "S3FifoState::%s acts on the frequency cell" % meth, "atomic %s on .frequency" % pat.strip(":$\\"), "S3FifoState::%s does not read / write the record's frequency" % meth, ln=f.lo)
+    upd = F.method(S3, "update", "Eviction")
+    errs = [b.idx for b in upd.calls_to(r"error::Error::new$")]
+    gu = upd.calls_to(r"GhostQueue::update$")
+    okg = len(gu) == 1 and upd.must_pass(0, [gu[0].idx] + errs)
+    if okg:
+        sl = backslice(upd, gu[0].term.args[1], "dep")
+        okg = 2 in sl.args and sl.has_field("ghost_queue_capacity_ratio")
+    r.require(okg, upd, "S3-FIFO update: ghost capacity follows the new capacity", "GhostQueue::update(capacity * ghost ratio) on every accepted update",
+              "S3Fifo::update (resize) does not resize the ghost queue from the new capacity and the ghost ratio", ln=upd.lo)
+    for A2, fld, ratio in ((S3, "small_weight_capacity", "small_queue_capacity_ratio"), (EV + "::lfu::Lfu", "window_weight_capacity", "window_capacity_ratio"),
+                           (EV + "::lfu::Lfu", "protected_weight_capacity", "protected_capacity_ratio"), (EV + "::lru::Lru", "high_priority_weight_capacity", "high_priority_pool_ratio")):
+        u = F.method(A2, "update", "Eviction")
+        ups = tables.field_updates(u, fld, A2)
+        errs = [b.idx for b in u.calls_to(r"error::Error::new$")]
+        ok = bool(ups) and u.must_pass(0, [x["block"] for x in ups] + errs)
+        if ok:
+            sl = backslice(u, ups[0]["stmt"].rv.ops[0], "dep")
+            ok = 2 in sl.args and sl.has_field(ratio)
+        r.require(ok, u, "%s update: %s follows the new capacity" % (A2.rsplit("::", 1)[-1], fld), "%s := capacity * %s on every accepted update" % (fld, ratio),
+                  "%s::update (resize) does not recompute %s from the new capacity and %s: the queue keeps its old share" % (A2.rsplit("::", 1)[-1], fld, ratio), ln=u.lo)
+    # --- SIEVE: the visited bit is a real cell; a visited entry advances the hand before the next test
+    SS = EV + "::sieve::SieveState"
+    sv, iv = F.method(SS, "set_visited"), F.method(SS, "is_visited")
+    c1 = [b for b in sv.calls_to(r"::store$") if backslice(sv, b.term.args[0], "prov").has_field("visited", SS) and 2 in backslice(sv, b.term.args[1], "prov").args]
+    c2 = [b for b in iv.calls_to(r"::load$") if backslice(iv, b.term.args[0], "prov").has_field("visited", SS)]
+    r.require(len(c1) == 1 and sv.must_pass(0, [c1[0].idx]) and len(c2) == 1, sv, "SIEVE visited bit: set stores the argument, is loads it", "store(param) / load on .visited",
+              "SieveState::set_visited / is_visited do not write / read the visited bit", ln=sv.lo)
+    pop = F.method(EV + "::sieve::Sieve", "pop", "Eviction")
+    vis = pop.calls_to(r"SieveState::is_visited$")
+    get = [b.idx for b in pop.calls_to(r"CursorMut::<'a, A>::get$")]
+    adv = [b.idx for b in pop.calls_to(r"CursorMut::<'a, A>::move_next$")] + [b.idx for b in pop.calls_to(r"LinkedList::<A>::front_mut$") if pop.reachable([vis[0].idx]) and b.idx in pop.reachable([vis[0].idx])] if vis else []
+    ok = False
+    if vis and get and adv:
+        for (swb, neg) in tables._bool_switches_on(pop, vis[0].idx):
+            tt, ft = tables.bool_switch_targets(swb)
+            if neg:
+                tt, ft = ft, tt
+            ok = pop.must_pass(tt, adv, targets=get + pop.returns()) and bool(pop.calls_to(r"CursorMut::<'a, A>::move_next$"))
+    r.require(ok, pop, "SIEVE: a visited entry moves the hand on", "from the visited edge every path back to the test passes move_next / the wrap to the head",
+              "SIEVE pop re-tests the same entry after clearing its visited bit without advancing the hand (the scan order is no longer the queue order)", ln=pop.lo)
+    # --- w-TinyLFU: insertions and lookups feed the sketch
+    L = EV + "::lfu::Lfu"
+    push = F.method(L, "push", "Eviction")
+    uf = [b for b in push.calls_to(r"Lfu::<K, V, P>::update_frequencies$")]
+    r.require(len(uf) == 1 and push.must_pass(0, [uf[0].idx]) and backslice(push, uf[0].term.args[1], "prov").has_call(r"Record::<E>::hash$"), push, "w-TinyLFU push feeds the sketch", "update_frequencies(record.hash()) on every push",
+              "Lfu::push does not count the insertion in the frequency sketch", ln=push.lo)
+    acq = F.method(L, "acquire", "Eviction")
+    cl = [g for g in F.descendants(acq) if g.calls_to(r"Lfu::<K, V, P>::update_frequencies$")]
+    okq = False
+    if len(cl) == 1:
+        ufb = [b.idx for b in cl[0].calls_to(r"Lfu::<K, V, P>::update_frequencies$")]
+        sws = [sb for (sb, pl, tm, other) in tables.discr_switches(cl[0]) if {"Window", "Probation", "Protected"} <= set(tm)]
+        # every lookup of a record that is linked in a queue is counted: the sketch update dominates the queue dispatch
+        okq = bool(sws) and all(any(cl[0].dominates(u, sb.idx) for u in ufb) for sb in sws)
+    r.require(okq, acq, "w-TinyLFU acquire feeds the sketch", "update_frequencies dominates the queue dispatch of the access operator",
+              "Lfu lookups are not counted in the frequency sketch on every path: the admission comparison works on stale frequencies", ln=acq.lo)
+    ufn = F.method(L, "update_frequencies")
+    cu = ufn.calls_to(r"CountMinSketch::<\w+>::update$|CountMinSketch<.*>::update$|::update$")
+    r.require(bool(cu) and ufn.must_pass(0, [cu[0].idx]) and 2 in backslice(ufn, cu[0].term.args[1], "dep").args, ufn, "update_frequencies updates the sketch with the hash", "sketch.update(key(hash)) unconditionally",
+              "Lfu::update_frequencies does not add the hash to the sketch", ln=ufn.lo)
+
+
 def run(chk, F):
     chk.run_rule("C14.fifo", "FIFO: push back, pop front, no reordering on lookup", 4, fifo, F)
     chk.run_rule("C14.lru", "LRU: hint table, low-priority first, pop from the front, never the pin list, pool overflow only when over the share and re-run at every growth site, pin / unpin to the MRU end", 11, lru, F)
     chk.run_rule("C14.s3fifo", "S3-FIFO: ghost routing, small-first when over share, promotion at freq >= threshold else evict + ghost, main re-insertion while freq > 0, saturation", 6, s3fifo, F)
     chk.run_rule("C14.ghost-queue", "S3-FIFO ghost queue: push makes room for the incoming entry (pop while weight + incoming > capacity), update shrinks exactly, queue / set / weight move together", 7, ghost, F)
+    chk.run_rule("C14.bookkeeping", "in-eviction flag follows list membership; remove unlinks from the tagged queue; lookups feed frequency / visited / sketch; resize reaches every derived capacity", 35, bookkeeping, F)
     chk.run_rule("C14.sieve", "SIEVE: tail insert, scan from the hand or head, visited -> clear + advance, unvisited -> evict, hand := successor, lookups only mark", 5, sieve, F)
     chk.run_rule("C14.lfu", "w-TinyLFU: window admission and overflow, head-to-head sketch comparison (window evicted only when strictly colder), access table", 5, lfu, F)
